@@ -6,7 +6,7 @@
    balance equals height right - height left and lies in [-1,1]).
    The reference map is Spec.v: [map_step_reject] (tree, table: a duplicate key
    is rejected) and [map_step_trie] (trie: insertion overwrites). *)
-From MV Require Import C09.Proofs C09.ProofsGen C09.ProofsCb gen.Params_C09.
+From MV Require Import C09.Proofs C09.ProofsGen C09.ProofsCb C09.ProofsAlloc gen.Params_C09.
 Local Open Scope Z_scope.
 
 (* Insertion (descent, retracing, single/double rotations with the code's
@@ -682,3 +682,45 @@ Print Assumptions gen_trie_remove_matches_model.
 Theorem cmp_dispatch_uses_sign_only : forall c, cmp_dispatch c = cmp_dispatch (Z.sgn c).
 Proof. exact cmp_dispatch_sign. Qed.
 Print Assumptions cmp_dispatch_uses_sign_only.
+
+(* ====================================================================== *)
+(* Allocation failure inside insert / put (C09/ProofsAlloc.v): an exhausted constant-size node pool or malloc
+   returning NULL.  [opa] is an operation with an oracle ([None]: every allocation succeeds; [Some b]: the first b
+   node allocations of the call succeed, the next one fails).  A failed insert reports failure and the structure
+   still answers every later operation like the reference map; nothing fails unless a failure is injected.
+   Tree and table: the failed insert changes nothing ([map_step_o]: the reference leaves the map alone). *)
+Theorem avl_refines_map_under_alloc_failure : forall ops,
+  snd (rung avl_step_o Leaf ops) = snd (rung map_step_o empty_map ops) /\
+  avl_inv (fst (rung avl_step_o Leaf ops)) /\
+  forall y, avl_find y (fst (rung avl_step_o Leaf ops)) = fst (rung map_step_o empty_map ops) y.
+Proof. exact avl_refines_alloc. Qed.
+Print Assumptions avl_refines_map_under_alloc_failure.
+
+Theorem ht_refines_map_under_alloc_failure : forall hash ts ops,
+  snd (rung (ht_step_o hash) (ht_init ts) ops) = snd (rung map_step_o empty_map ops) /\
+  forall y, ht_find hash (fst (rung (ht_step_o hash) (ht_init ts) ops)) y = fst (rung map_step_o empty_map ops) y.
+Proof. exact ht_refines_alloc. Qed.
+Print Assumptions ht_refines_map_under_alloc_failure.
+
+(* Trie: muggle_trie_insert allocates one node per missing key byte; when an allocation fails in the middle of a key
+   the unchanged code returns NULL and leaves the nodes created so far in place (no data in them).  One call: success
+   is the insert of the failure-free model, failure leaves EVERY lookup unchanged, and a budget that covers the key
+   cannot fail. *)
+Theorem trie_insert_under_alloc_failure : forall b root key v, valid_key key ->
+  (snd (trie_insert_o b root key v) = true -> fst (trie_insert_o b root key v) = trie_insert root key v) /\
+  (snd (trie_insert_o b root key v) = false ->
+     forall key', trie_lookup (fst (trie_insert_o b root key v)) key' = trie_lookup root key') /\
+  ((length key < b)%nat -> snd (trie_insert_o b root key v) = true).
+Proof. exact trie_insert_o_spec. Qed.
+Print Assumptions trie_insert_under_alloc_failure.
+
+(* Histories: the reference map follows the REPORTED results ([ref_run]: a reported failure leaves it alone); the
+   results, every lookup afterwards, and "no failure reported where none was injected" *)
+Theorem trie_refines_map_under_alloc_failure : forall ops, Forall valid_opa ops ->
+  let rs := snd (rung trie_step_o trie_empty ops) in
+  map obs rs = snd (ref_run empty_map ops rs) /\
+  (forall key, valid_key key ->
+     trie_lookup (fst (rung trie_step_o trie_empty ops)) key = fst (ref_run empty_map ops rs) key) /\
+  Forall2 (fun a r => no_failure_injected a -> reports_success a r) ops rs.
+Proof. exact trie_refines_alloc. Qed.
+Print Assumptions trie_refines_map_under_alloc_failure.
